@@ -126,7 +126,9 @@ func (s *Service) submitValidatorRegistrationsForAccounts(ctx context.Context,
 			relayRegistrations,
 		)
 		if err != nil {
-			return err
+			// Recognise the error but continue, to submit as many validator registrations as possible.
+			s.log.Error().Err(err).Msg("Failed to generate registrations for validator; it will not be registered with MEV relays")
+			continue
 		}
 		consensusRegistrations = append(consensusRegistrations, accountConsensusRegistrations...)
 	}
